@@ -551,7 +551,7 @@ impl Writeable for FormattableDuration {
             match time {
                 FormattableTimeDuration::Hours(hours, fraction) => {
                     let ns = fraction.unwrap_or(0);
-                    if hours + u64::from(ns) != 0 {
+                    if hours != 0 || ns != 0 {
                         sink.write_char('T')?;
                     }
                     if hours == 0 {
@@ -566,7 +566,7 @@ impl Writeable for FormattableDuration {
                 }
                 FormattableTimeDuration::Minutes(hours, minutes, fraction) => {
                     let ns = fraction.unwrap_or(0);
-                    if hours + minutes + u64::from(ns) != 0 {
+                    if hours != 0 || minutes != 0 || ns != 0 {
                         sink.write_char('T')?;
                     }
                     checked_write_u64_with_suffix(hours, 'H', sink)?;
